@@ -74,6 +74,7 @@ def generate(rng, tier):
         spec["replace"] = {"elements": bels, "positions": copy.deepcopy(spec["pattern"]["positions"]), "charges": None, "groups": None, "mode": "aba"}
         spec["fraction"] = 1.0
         spec["replace_all"] = False
+        spec["mid_replicate"] = rng.choice([[2, 1, 1], [1, 2, 1], [1, 1, 2], [1, 1, 1], [2, 1, 2]]) if rng.random() < 0.3 else None
     else:
         spec = worlds.gen_find_world(rng, max_atoms=36, min_copies=1, families=[f for f in geom.PATTERN_FAMILIES if f != "single"])
         replcheck.add_metadata(rng, spec)
@@ -82,7 +83,7 @@ def generate(rng, tier):
         x = rng.choice(sorted(set(els)))
         rep = replcheck.gen_replacement(rng, els, P, mode=rng.choice(["smaller", "equal_subst", "larger", "disjoint", "empty"]))
         keep = [i for i, e in enumerate(rep["elements"]) if e != x]
-        for key in ("elements", "positions", "charges", "groups"):
+        for key in ("elements", "positions", "charges", "groups", "extra_atom_fields"):
             if rep.get(key) is not None:
                 rep[key] = [rep[key][i] for i in keep]
         spec["replace"] = rep
@@ -221,19 +222,32 @@ def execute(spec, ctx):
             ctx.count("overlap_error_left_to_C07")
             return
         ctx.event("c08", "A->B", k1, len(res1))
+        mult, ref_struct = 1, structure
+        dims = spec.get("mid_replicate")
+        if dims and "real" not in spec and spec.get("fraction", 1.0) == 1.0 and len(res1) * int(np.prod(dims)) <= 150:
+            # an operation between the two replacements: the intermediate structure is replicated (anything cached on the
+            # object during the first replacement must not survive the change of cell)
+            try:
+                res1 = res1.replicate(tuple(dims))
+                ref_struct = structure.replicate(tuple(dims))
+            except Exception as e:
+                raise Violation("raises:%s" % type(e).__name__, "replicate%s between two replacements: %s" % (dims, e), site="replicate")
+            mult = int(np.prod(dims))
+            cell = np.array(res1.cell, float)
+            ctx.count("aba_with_replicate_between")
         # second step: B -> A on the result (all B's: none existed before, so exactly the k1 substituted sites)
         res2, k2 = _call_replace(ctx, res1, replace, search, atol, script, hints, fraction=1.0)
         if res2 is None:
             ctx.count("overlap_error_left_to_C07")
             return
-        if k2 != k1:
+        if k2 != k1 * mult:
             # B sites can legitimately be matched differently only if B's geometry is ambiguous; with absent elements each
             # substituted site is exactly one occurrence
-            raise Violation("c08:substitution-not-reversible-count", "A->B replaced %d sites, B->A found %d" % (k1, k2), site="replace")
+            raise Violation("c08:substitution-not-reversible-count", "A->B replaced %d sites (x%d images), B->A found %d" % (k1, mult, k2), site="replace")
         tol = 2 * (3.0 * K * eps * math.sqrt(max(npat, 1))) * 2 + 2e-6
         if npat == 1:
             tol = 1e-9
-        ok, why = _mod_lattice_multiset_equal(structure, res2, cell, tol)
+        ok, why = _mod_lattice_multiset_equal(ref_struct, res2, cell, tol)
         if not ok:
             raise Violation("c08:substitution-not-reversible", "A->B->A does not restore the (element, position mod lattice) multiset: %s" % why, site="replace")
         if k1:
